@@ -5,9 +5,8 @@ package vrt
 // RaceMode reports whether the binary was built with the race detector.
 const RaceMode = false
 
-func raceHandoffOut()    {}
-func raceHandoffIn()     {}
-func raceSpawn(f func()) { go f() }
+func raceHandoffOut() {}
+func raceHandoffIn()  {}
 
 // RaceAddr carries the happens-before edges of a modelled synchronisation object to the race
 // detector; without -race it is empty.
